@@ -274,3 +274,52 @@ func TestStringAxioms(t *testing.T) {
 		}
 	}
 }
+
+type st2 struct {
+	X int
+	S string
+	P *inner
+	inner
+}
+
+func TestStructuralFactsOfConvertibleTypes(t *testing.T) {
+	type m1 map[string]int
+	vs := append(corpus(), reflect.ValueOf(st2{}), reflect.ValueOf(m1{"a": 1}))
+	for _, v := range vs {
+		if !v.IsValid() {
+			continue
+		}
+		for _, w := range vs {
+			if !w.IsValid() {
+				continue
+			}
+			rel := v.Type() == w.Type() || w.Type().AssignableTo(v.Type()) || w.Type().ConvertibleTo(v.Type())
+			if !rel {
+				continue
+			}
+			if v.Kind() == reflect.Struct {
+				if w.Kind() != reflect.Struct || w.NumField() != v.NumField() {
+					t.Errorf("struct %s vs %s: field counts differ", v.Type(), w.Type())
+				}
+			}
+			if v.Kind() == reflect.Map && w.Kind() == reflect.Map {
+				for _, k := range v.MapKeys() {
+					if !k.Type().AssignableTo(v.Type().Key()) {
+						t.Errorf("MapKeys of %s: key not assignable", v.Type())
+					}
+					if c, val := crashes(func() { w.MapIndex(k) }); c || val != nil {
+						t.Errorf("key of %s is not a key of %s: %v", v.Type(), w.Type(), val)
+					}
+				}
+			}
+		}
+	}
+}
+
+func TestIndexRuneOfInvalidRune(t *testing.T) {
+	for _, s := range []string{"", "abc", "�", "a\xffb"} {
+		if strings.IndexRune(s, -1) != -1 {
+			t.Errorf("IndexRune(%q, -1) != -1", s)
+		}
+	}
+}
